@@ -84,10 +84,26 @@ func runC03(c *mon.Case) {
 	auth := authMarker(rng, psize)
 	keyC, keyS := eng.NewKey(rng), eng.NewKey(rng)
 	pass := eng.Entropy(rng)
-	base := eng.HSConfig{KK: kk, CMin: vr[0], CMax: vr[1], SMin: vr[2], SMax: vr[3], PassC: pass, PassS: pass, Auth: auth, KeyC: keyC, KeyS: keyS}
+	base := eng.HSConfig{KK: kk, CMin: vr[0], CMax: vr[1], SMin: vr[2], SMax: vr[3], PassC: pass, PassS: pass, Auth: auth, KeyC: keyC, KeyS: keyS} // both parties share one passphrase buffer
 	if kk {
 		// the key-based pattern needs version 2 on both sides
 		base.CMax, base.SMax = 2, 2
+	}
+	// A party's ConnData may already hold a remote key while its Machine
+	// is built for the passphrase pattern (paired by a concurrent handshake
+	// after the pattern was looked up): nothing about the passphrase check
+	// may depend on that.
+	stale := ""
+	if !kk && c.Idx%5 == 2 {
+		k := []*btcec.PublicKey{keyC.PubKey(), keyS.PubKey(), eng.NewKey(rng).PubKey()}[rng.Intn(3)]
+		switch rng.Intn(3) {
+		case 0:
+			base.StaleRemoteS, stale = k, "responder"
+		case 1:
+			base.StaleRemoteC, stale = k, "initiator"
+		default:
+			base.StaleRemoteS, base.StaleRemoteC, stale = k, k, "both"
+		}
 	}
 	// control: matching secrets
 	ctl := eng.RunHandshake(base)
@@ -96,7 +112,7 @@ func runC03(c *mon.Case) {
 		intersect = true
 	}
 	ctlOK := ctl.OK()
-	rep := map[string]any{"kk": kk, "versions": fmt.Sprintf("client [%d,%d] server [%d,%d]", base.CMin, base.CMax, base.SMin, base.SMax), "auth_len": psize}
+	rep := map[string]any{"kk": kk, "conndata_already_holds_a_remote_key": stale, "versions": fmt.Sprintf("client [%d,%d] server [%d,%d]", base.CMin, base.CMax, base.SMin, base.SMax), "auth_len": psize}
 	if !ctlOK && intersect && ctl.C.NewErr == nil && ctl.S.NewErr == nil {
 		// Which combinations complete is not part of C03, except that
 		// equal ranges must: otherwise everything "fails" trivially.
@@ -126,6 +142,18 @@ func runC03(c *mon.Case) {
 			mis.PassC = p2
 		} else {
 			mis.PassS = p2
+		}
+		// Rotation in place: the buffer both parties used in the control
+		// handshake is overwritten with the new passphrase and handed to
+		// one party again, the other keeps (a copy of) the old one.
+		if c.Idx%7 == 3 {
+			orig := append([]byte{}, pass...)
+			copy(pass, p2)
+			mis.PassC, mis.PassS = pass, orig
+			if c.Idx%2 == 1 {
+				mis.PassC, mis.PassS = orig, pass
+			}
+			kind += ", rotated in place"
 		}
 	} else {
 		other := eng.NewKey(rng).PubKey()
@@ -194,6 +222,9 @@ func runC03(c *mon.Case) {
 			wantS = mis.SExpect
 		}
 	}
+	if !kk {
+		wantC, wantS = mis.StaleRemoteC, mis.StaleRemoteS
+	}
 	if !keyEq(r.C.CD.RemoteKey(), wantC) || !keyEq(r.S.CD.RemoteKey(), wantS) {
 		fail("remote-key-changed", "a stored remote key changed although the handshake failed")
 	}
@@ -203,7 +234,7 @@ func runC03(c *mon.Case) {
 	}
 	c.Shard.Count("mismatch_handshakes", 1)
 	if ctlOK {
-		c.Shard.Eval(fmt.Sprintf("%v|%s|%v|%d", kk, kind, vr, psize))
+		c.Shard.Eval(fmt.Sprintf("%v|%s|%v|%d|stale=%s", kk, kind, vr, psize, stale))
 	} else {
 		c.Shard.Eval("")
 	}
